@@ -93,7 +93,8 @@ fn main() {
     scan::WRAP16.store(tier == Tier::Thorough, std::sync::atomic::Ordering::Relaxed);
     if tier == Tier::Quick {
         // per-exploration wall cap of the quick tier (reported as a cap, never as a verdict)
-        std::env::set_var("XS_MAX_WALL_S", "300");
+        std::env::set_var("XS_MAX_WALL_S", "120");
+        std::env::set_var("XS_MAX_STATES", "3000000");
     }
     let code = match id {
         "C01" => {
